@@ -373,9 +373,11 @@ def type_descs(n_models):
         # PintQuantity + PintUnit) make a Union inherently order-dependent on input (pydantic tries members left
         # to right, and typing's generic cache may even reorder them): not a round-trip-able field type.
         out, seen_str = [], False
-        if any(m in ("SIValue", "NumValue") for m in members if isinstance(m, str)) and any(isinstance(m, dict) and m["k"] == "Model" for m in members):
-            # both are objects in serialised form: next to another model the member is ambiguous (same reason)
-            members = [m for m in members if m not in ("SIValue", "NumValue")]
+        if len(members) > 1:
+            # SIValue / NumValue take strings, numbers AND objects on input: next to any other member the Union is
+            # ambiguous (same reason) -> they only occur on their own
+            rest = [m for m in members if not (isinstance(m, str) and m in ("SIValue", "NumValue"))]
+            members = rest or members[:1]
         for m in members:
             strlike = (isinstance(m, str) and m in STRLIKE) or (isinstance(m, dict) and m["k"] == "Enum") or \
                 (isinstance(m, dict) and m["k"] == "Literal" and any(isinstance(v, str) for v in m["v"]))
